@@ -48,6 +48,7 @@ func createASTTypeExpr(pkg string, t types.Type, varPool *VarPool, imports map[s
 					IsDefaultName: newPkgName == pkgName,
 					IsUsed:        false, // Will be marked during code generation
 				}
+				pkgName = newPkgName
 			}
 
 			return withTypeArgs(&ast.SelectorExpr{
@@ -75,6 +76,7 @@ func createASTTypeExpr(pkg string, t types.Type, varPool *VarPool, imports map[s
 					IsDefaultName: newPkgName == pkgName,
 					IsUsed:        false, // Will be marked during code generation
 				}
+				pkgName = newPkgName
 			}
 
 			return &ast.SelectorExpr{
